@@ -1182,7 +1182,9 @@ class RoundTripTypes(Oracle):
         present["keys"], present["ll"] = keys, ll
         if not body:
             body = el("v", vals[0])              # (an empty non-presence container is a default node and is not printed)
-        return "<g-%s%s%s>%s</g-%s>" % (s.tid, TYPES_NS, metas(0.2), body, s.tid), present
+        # (metadata on the container only when trim mode keeps it: it is not printed when all it holds are default values)
+        keeps = v is not None or ll or keys
+        return "<g-%s%s%s>%s</g-%s>" % (s.tid, TYPES_NS, metas(0.2) if keeps else "", body, s.tid), present
 
     V = PARSE_STRICT
     CHECKS = [  # (source tree, format, print options, parse options, validation options, mode E exact / F default flags aside)
@@ -1591,3 +1593,66 @@ class QNamesX(Oracle):
                     return (None, "an identityref value in the printed JSON names another module (%s): (path, metadata, value, "
                                   "namespace) expected x%d, found x%d: %r" % (what, d[0][1], d[0][2], d[0][0]))
         return known
+
+
+# ------------------------------------------------------------------------------------------------
+# LYB schema hashes: sibling names that collide on the first collision ids
+# ------------------------------------------------------------------------------------------------
+class LybCollisionRT(RoundTripX):
+    """C01 for LYB where schema-node hashes collide: modules built from the families of corpus/lyb_collisions.txt (sibling
+    names whose lyb_generate_hash values are equal on the collision ids 0..d-1, d = 1..6, so that the later sibling is
+    identified by a sequence of d + 1 hashes; d = 8: on every id, listed finding lyb-hash-collision) - the colliding names as
+    top-level leaves, leaves in a container, containers, list key + leaf, leaf-list, inside a list instance; both schema
+    orders; both nodes present, only the first, only the second. The tree (parsed from XML) is printed as LYB, XML and JSON and
+    parsed back; dump, lyd_compare_siblings and metadata must agree with the original."""
+    name = "lybcollisionrt"
+    driver = "t_doc"
+
+    @staticmethod
+    def module(mod, a, b):
+        lf = lambda n: "leaf %s { type string; }" % n
+        return ('module %s { yang-version 1.1; namespace "urn:verif:%s"; prefix p;\n'
+                '  %s %s leaf zz-other { type string; }\n'
+                '  container in-cont { %s %s leaf other { type string; } }\n'
+                '  container as-cont { container %s { leaf x { type string; } } container %s { leaf x { type string; } leaf y { type string; } } }\n'
+                '  list as-key { key "%s"; %s %s leaf-list other { type string; } }\n'
+                '  list in-list { key "id"; leaf id { type uint8; } leaf-list %s { type string; } %s }\n'
+                '}\n') % (mod, mod, lf(a), lf(b), lf(a), lf(b), a, b, a, lf(a), lf(b), a, lf(b))
+
+    @staticmethod
+    def data(mod, a, b, ha, hb):
+        ns = ' xmlns="urn:verif:%s"' % mod
+        el = lambda n, v, x="": "<%s%s>%s</%s>" % (n, x, v, n)
+        out = ""
+        if ha:
+            out += el(a, "top-a", ns)
+        if hb:
+            out += el(b, "top-b", ns)
+        out += el("in-cont", (el(a, "va") if ha else "") + (el(b, "vb") if hb else "") + el("other", "o"), ns)
+        out += el("as-cont", (el(a, el("x", "ax")) if ha else "") + (el(b, el("x", "bx") + el("y", "by")) if hb else ""), ns)
+        out += el("as-key", el(a, "key1") + (el(b, "b1") if hb else "") + el("other", "o1"), ns)
+        out += el("as-key", el(a, "key2") + (el(b, "b2") if hb and ha else ""), ns)
+        out += el("in-list", el("id", "1") + (el(a, "l1") + el(a, "l2") if ha else "") + (el(b, "lb") if hb else ""), ns)
+        out += el("in-list", el("id", "2") + (el(b, "lb2") if hb else "") + (el(a, "l3") if ha else ""), ns)
+        return out
+
+    def gen(self, rng, tier, scale=1.0):
+        from props import comps_lyb
+        E = "E"
+        L = []
+        fams = comps_lyb.load_collision_families()
+        for mod, depth, names in fams:
+            if tier != "thorough" and (depth < 3 or depth == 8) and rng.random() < 0.6:
+                continue
+            pairs = [(names[0], names[1]), (names[1], names[0])]
+            if len(names) > 2:
+                pairs.append((names[-1], names[0]))
+            for a, b in pairs:
+                for ha, hb in ((1, 1), (0, 1), (1, 0)):
+                    s = Script()
+                    s.ctx()
+                    s.mod(self.module(mod, a, b))
+                    s.parse(0, "x", self.data(mod, a, b, ha, hb), popts=OPQ, vopts=0)
+                    L.append(self.finish(s, 3, [("d", "b", SIB, E), ("d", "x", SIB | PRINT_SHRINK, E), ("d", "j", SIB | PRINT_SHRINK, E)],
+                                         "lybcol-%d" % depth))
+        return L
